@@ -467,6 +467,14 @@ theorem normalize_valid_production (counts : List Nat) (maxLog : Nat)
     rcases hprod with ⟨rfl, h⟩ | ⟨rfl, h⟩ | ⟨rfl, h⟩ | ⟨rfl, h⟩ <;> omega
   exact Proofs.FseNormalize.normalize_valid_partial counts maxLog _ h.1 hlen2 h.2.1 h.2.2 hpos
 
+/-- **the compressor never asks for an accuracy log the decoder would reject**: the `max_log` arguments of the three
+`choose_table` calls in `compress_block` and of the Huffman-weight coder (extracted from the source on every run) are
+within the maxima the decoder enforces (`LL_MAX_LOG`/`ML_MAX_LOG`/`OF_MAX_LOG`, 6 for the weights) — a table description
+with a larger `Accuracy_Log` is written without complaint and rejected by every decoder (`AccLogTooBig`) -/
+theorem enc_max_logs_within_dec :
+    Gen.llEncMaxLog ≤ Gen.llMaxLog ∧ Gen.mlEncMaxLog ≤ Gen.mlMaxLog ∧ Gen.ofEncMaxLog ≤ Gen.ofMaxLog ∧
+      Gen.hufWeightsEncMaxLog ≤ Gen.hufWeightsDecMaxLog := by decide
+
 /-- the Huffman-weight coder uses the same avoidance flag -/
 theorem huf_weights_same_avoidance : Gen.hufWeightsEncAvoidZeroBits = Gen.seqEncAvoidZeroBits := by decide
 
